@@ -20,6 +20,8 @@ ALLOWED = {
     "none": (None, None),
     "one": ("97...122", [(97, 122)]),
     "two": ("48...57, 97...122", [(48, 57), (97, 122)]),
+    # quoted letters in both cases (only used through Cid.read, not part of the grid)
+    "quoted": ("'A'...'Z', \"a\"...\"f\"", [(65, 90), (97, 102)]),
 }
 FORMATS = ("delimited", "fixed", "excel", "ods")
 FIXED_WIDTH = 3
